@@ -161,3 +161,21 @@ Theorem function_signal_history : forall times fvals ops n, length fvals = lengt
   = scale_product ops * nth n (fs_read times fvals {| fs_factor := 1; fs_filters := filters_of ops |}) 0.
 Proof. exact fs_history_lemma. Qed.
 Print Assumptions function_signal_history.
+
+(* multi-term FunctionSignals (a + b concatenates the terms): what is read is the sum over the terms of what each term reads
+   with ITS OWN factor and filter chain (an unfiltered first term does not switch the filters of a later term off), hence
+   a + b reads as a plus b in either order, and filtering the sum filters every term *)
+Theorem multi_term_read_is_sum_of_terms : forall times st n, List.Forall (group_ok times) st -> (n < length times)%nat ->
+  nth n (mg_read times st) 0 = list_sum_R' (map (fun gr => nth n (group_read times gr) 0) st).
+Proof. exact mg_read_nth. Qed.
+Print Assumptions multi_term_read_is_sum_of_terms.
+
+Theorem sum_of_signals_reads_additively : forall times a b n,
+  List.Forall (group_ok times) a -> List.Forall (group_ok times) b -> (n < length times)%nat ->
+  nth n (mg_read times (a ++ b)) 0 = nth n (mg_read times a) 0 + nth n (mg_read times b) 0.
+Proof. exact mg_add_lemma. Qed.
+Print Assumptions sum_of_signals_reads_additively.
+
+Theorem filtering_a_sum_filters_every_term : forall g fr a b, mg_filter g fr (a ++ b) = mg_filter g fr a ++ mg_filter g fr b.
+Proof. exact mg_filter_app. Qed.
+Print Assumptions filtering_a_sum_filters_every_term.
